@@ -69,6 +69,39 @@ func c08Gen(thorough bool) func(emit func(*h1.Scenario)) {
 	}
 }
 
+// c08TwoCycleGen: the same Coordinator object runs two cycles; a shard that was brought in sync in the
+// first one reports a different hash again in the second (its sidecar restarted), or its first push failed.
+func c08TwoCycleGen() func(emit func(*h1.Scenario)) {
+	modes := []int{h1.HashEqual, h1.HashDiffReject, h1.HashDiffAcceptEqual, h1.HashDiffAcceptStill, h1.HashDiffAcceptGetFail}
+	return func(emit func(*h1.Scenario)) {
+		for _, m1 := range modes {
+			for _, m2 := range modes {
+				for _, pos := range []int{0, 1} {
+					for _, head := range []int64{0, 100} {
+						mk := func(mode int) []h1.Replica {
+							b := newB(h1.Opt{MaxHead: head, MaxProc: 100, MaxShard: 99, IdleSec: 3600}, 2)
+							b.Target(100, 40, 40, true, "up")
+							b.Copy(0, 100, h1.St{Health: "up", Times: 5, Series: 40, Total: 40})
+							b.Target(200, 30, 30, true, "up")
+							b.Copy(1, 200, h1.St{Health: "up", Times: 5, Series: 30, Total: 30})
+							b.Rep.Shards[pos].HashMode = mode
+							sc := b.Done(10)
+							return sc.Cycles[0]
+						}
+						b := newB(h1.Opt{MaxHead: head, MaxProc: 100, MaxShard: 99, IdleSec: 3600}, 2)
+						b.Target(100, 40, 40, true, "up")
+						b.Target(200, 30, 30, true, "up")
+						sc := b.Done(10)
+						sc.Cycles = [][]h1.Replica{mk(m1), mk(m2)}
+						sc.Note = fmt.Sprintf("two cycles: shard %d %s then %s", pos, shNames[classOf(&sc.Cycles[0][0].Shards[pos])], shNames[classOf(&sc.Cycles[1][0].Shards[pos])])
+						emit(sc)
+					}
+				}
+			}
+		}
+	}
+}
+
 func isPost(r h1.Req, suffix string) bool {
 	return r.Method == "POST" && strings.HasSuffix(r.Path, suffix)
 }
@@ -254,7 +287,11 @@ func classOf(s *h1.Shard) int {
 
 func init() {
 	chk.Register("C08", func(c *chk.Ctx) {
-		runH1(c, 1, c08Gen(c.Thorough()), c08Oracle, func(sc *h1.Scenario, o *h1.Obs) bool {
+		gen := func(emit func(*h1.Scenario)) {
+			c08Gen(c.Thorough())(emit)
+			c08TwoCycleGen()(emit)
+		}
+		runH1(c, 1, gen, c08Oracle, func(sc *h1.Scenario, o *h1.Obs) bool {
 			for si := range sc.Cycles[0][0].Shards {
 				if !sc.Cycles[0][0].Shards[si].InSync() {
 					return true
